@@ -87,7 +87,9 @@ def _static_unit(fder, nEF, additive, k_resolved, hole_like=False, use_factor=Tr
         classes.append(EFmin + (ngrid - 1) * d + 0.3)
         nk = 2 if k_resolved else nk_int
         NB = 4
-        layouts = [[(0, 1), (1, 3), (3, 4)], [(0, 2), (2, 4)]] if additive else [[(0, 1), (1, 3)]]
+        # band groups as get_bands_in_range_groups hands them out: contiguous in the band index; sea groups (fder = 0) start at band 0,
+        # window groups (fder >= 1) may start above the lowest band
+        layouts = [[(0, 1), (1, 3), (3, 4)], [(0, 2), (2, 4)]] if additive else ([[(0, 1), (1, 3)]] if fder == 0 else [[(0, 1), (1, 3)], [(1, 3), (3, 4)], [(2, 3)]])
 
         def body():
             del results[:]
